@@ -68,7 +68,7 @@ def lib_name(repo: Repo, fi: FuncInfo, call: ast.Call) -> str:
 
 def _regex_class(repo: Repo, ci: ClassInfo) -> bool:
     for m in [*ci.methods.values(), *ci.extra_methods]:
-        for c in calls_in(m.node):
+        for c in [n for n in ast.walk(m.node) if isinstance(n, ast.Call)]:
             if lib_name(repo, m, c) in REGEX_FUNCS or (isinstance(c.func, ast.Attribute) and c.func.attr in REGEX_METHODS):
                 return True
     return False
